@@ -17,6 +17,17 @@ def specs(ctx):
     s += sysrun.specs_early_cancel(ctx, kinds[:3], seeds=2 if not ctx.thorough() else 5)
     s += sysrun.specs_nonthreaded_interrupt(ctx, kinds)
     s += sysrun.specs_cancel(ctx, kinds[:3], ['shutdown', 'exit_exc', 'result_kbi'], pts[::3])
+    # extra arguments that only SOME of the multipart operations accept (SSE-C keys, request payer):
+    # the fake S3 validates every call against the operation's input shape like botocore does, so
+    # an abort carrying a parameter it does not have is refused client-side and the upload stays open
+    sse = {'SSECustomerKey': 'k' * 32, 'SSECustomerAlgorithm': 'AES256', 'RequestPayer': 'requester'}
+    for ts in (dict(kind='upload', src='path', size=10), dict(kind='upload', src='nonseekable', size=10), dict(kind='copy', size=10)):
+        for idx in range(1, 5):
+            for when in ('before', 'after'):
+                s.append(dict(transfers=[dict(ts, extra_args=sse)], cfg=sysrun.CFG_SMALL, chooser={'kind': 'random', 'seed': idx},
+                              s3_fault=dict(idx=idx, when=when)))
+        s.append(dict(transfers=[dict(ts, extra_args=sse)], cfg=sysrun.CFG_SMALL, chooser={'kind': 'random', 'seed': 9},
+                      cancel=dict(how='future', at=25)))
     for c in (1, 3):
         cfg = dict(sysrun.CFG_SMALL, max_request_concurrency=c)
         s += sysrun.specs_faults(ctx, kinds[:2], seeds=1, cfg=cfg, tag=f'conc{c}')
